@@ -32,7 +32,7 @@ def labels_of(ev):
         return ['C14']
     if e in ('TrackerPeers', 'Settle'):
         return ['C19', 'C02', 'C01']
-    if e == 'Connect':
+    if e in ('Connect', 'ConnectDup'):
         return ['C08', 'C12']
     if e == 'Disk':
         return ['C01']
@@ -512,7 +512,7 @@ def check_c01(tier, replay=None):
 
 def check_c02(tier, replay=None):
     m = mult(tier)
-    plan = [(G.honest, 32 * m, {}), (G.handover, 10 * m, {})]
+    plan = [(G.honest, 32 * m, {}), (G.handover, 10 * m, {}), (G.dupaddr, 8 * m, {})]
     return swarm_check('C02', tier, plan, need_actions=(), kinds= ['Unchoke', 'Bitfield', 'Piece', 'Have'],
                        design_over=dict(Fuel=3, BFMenu='{{1, 2}}') if tier == 'quick' else dict(Fuel=4, MaxQ=2),
                        extra_oracles=[oracle_c02], vacuity={'completions': 40}, replay=replay, live=True,
@@ -524,7 +524,7 @@ def check_c02(tier, replay=None):
 
 def check_c08(tier, replay=None):
     m = mult(tier)
-    plan = [(G.handshakes, 40 * m, {}), (G.adversarial, 8 * m, {}), ('model', 20 * m, {})]
+    plan = [(G.handshakes, 40 * m, {}), (G.adversarial, 8 * m, {}), (G.dupaddr, 6 * m, {}), ('model', 20 * m, {})]
     return swarm_check('C08', tier, plan, need_actions=('HHandshake', 'HReject'), kinds= ['Handshake', 'Bad', 'Bitfield', 'Request'],
                        design_over=dict(HS0='FALSE', Fuel=3, BFMenu='{{1, 2}}') if tier == 'quick' else dict(HS0='FALSE', Fuel=5),
                        vacuity={'exits': 10}, replay=replay,
@@ -563,7 +563,7 @@ def check_c11(tier, replay=None):
 
 def check_c12(tier, replay=None):
     m = mult(tier)
-    plan = [(G.adversarial, 50 * m, {}), (G.honest, 6 * m, {}), (G.reassign, 30 * m, {}), (G.stale_choke, 10 * m, {}), (G.choke_race, 30 * m, {}), ('model', 30 * m, {})]
+    plan = [(G.adversarial, 50 * m, {}), (G.honest, 6 * m, {}), (G.reassign, 30 * m, {}), (G.stale_choke, 10 * m, {}), (G.choke_race, 30 * m, {}), (G.dupaddr, 10 * m, {}), ('model', 30 * m, {})]
     return swarm_check('C12', tier, plan, need_actions=('MUnchoke', 'MChoke', 'MPieceDone', 'MKill'), kinds= ['Unchoke', 'Choke', 'Bitfield', 'Piece'] if tier == 'quick' else ['Unchoke', 'Choke', 'Bitfield', 'Piece', 'Have', 'Bad'],
                        design_over=dict(Fuel=3, BFMenu='{{1, 2}}') if tier == 'quick' else dict(Fuel=4, MaxQ=2),
                        vacuity={'mgr_events': 500, 'completions': 5}, replay=replay,
